@@ -24,6 +24,7 @@ def run(model, rep, tier):
     rep.rule('R09.1', 'sibling members of _Mul/_Add use one decomposition of element and point indices')
     rep.rule('R09.2', '_Integral/_ConcatenatePoints use one loop index for weights, lower args and the reduction')
     rep.rule('R09.3', 'every concrete sample defines the four accessors')
+    rep.rule('R09.4', 'transformed points scale weights by the absolute determinant')
     M = model.cls('sample:_Mul')
     for name in ('getindex', 'get_evaluable_indices', 'get_evaluable_weights', 'get_lower_args'):
         f = M.members[name].func
@@ -100,6 +101,40 @@ def run(model, rep, tier):
     idx = src(li[0].targets[0]) if li else '?'
     ok = len(li) == 1 and f'self._sample.get_lower_args({idx})' in t and f'evaluable.loop_concatenate(func, {idx})' in t
     rep.ob('R09.2', C.key, C.where(), ok, 'points are concatenated over the same element index that produced them', statement='concatenate-index')
+    # R09.1c: a composite sample never hands its own raw element index to a component's accessor (index spaces differ)
+    ACCESSORS = ('getindex', 'get_evaluable_indices', 'get_evaluable_weights', 'get_lower_args', 'get_element_tri', 'get_element_hull')
+    from sa.guards import enclosing_conditions
+    nraw = 0
+    for cname in ('_Mul', '_Zip', '_TakeElements', '_Add'):
+        c = model.cls(f'sample:{cname}')
+        for mem in c.members.values():
+            f = mem.func
+            if f is None or mem.name not in ACCESSORS:
+                continue
+            pos = params(f.node)[0]
+            if len(pos) < 2:
+                continue
+            raw = pos[1]
+            conds = enclosing_conditions(f.node)
+            for call in calls_in(f.node):
+                if method_name(call) in ACCESSORS and isinstance(call.func, ast.Attribute) and src(call.func.value) != 'self' and call.args and src(call.args[0]) == raw:
+                    nraw += 1
+                    licensed = cname == '_Add' and any(t.replace(' ', '') == f'{raw}<self._sample1.nelems' and v for t, v in conds.get(id(call), ()))
+                    rep.ob('R09.1', f.key, f.where(call), licensed, f'`{src(call)[:60]}` passes the composite index on only where it is the component index (first part of a union)' if licensed else
+                           f'`{src(call)[:70]}` hands the element index of the composite sample `{raw}` unchanged to a component sample, whose elements are numbered differently '
+                           f'(the sibling members first map it through divmod / self._ielems / self._indices)', statement=f'raw index to component in {mem.name}')
+    z = model.cls('sample:_Zip').members['get_evaluable_weights'].func
+    t = src(z.node)
+    ok = 'ielem0 = evaluable.Take(evaluable.Constant(self._ielems[0]), ielem)' in t and 'self._samples[0].get_evaluable_weights(ielem0)' in t and 'slice0 = evaluable.Take(evaluable.Constant(self._ilocals[0]), self._getslice(ielem))' in t
+    rep.ob('R09.1', z.key, z.where(), ok, 'zip weights: first sample\'s weights at its own element index, restricted to the zipped points' if ok else
+           '_Zip.get_evaluable_weights no longer looks the weights up at the first sample\'s own element index (self._ielems[0]) and local slice', statement='zip-weights')
+    # R09.4: transformed points scale the weights by the ABSOLUTE determinant (reflected children have negative determinants)
+    tp = model.cls('points:TransformPoints').members['weights'].func
+    dets = [n for n in ast.walk(tp.node) if isinstance(n, ast.Attribute) and n.attr == 'det']
+    ok = bool(dets) and all(any(isinstance(c, ast.Call) and src(c.func) in ('abs', 'numpy.abs', 'numpy.absolute', 'builtins.abs') and any(x is d for x in ast.walk(c)) for c in ast.walk(tp.node)) for d in dets) \
+        and 'self.points.weights *' in src(tp.node)
+    rep.ob('R09.4', tp.key, tp.where(), ok, 'weights of transformed points = weights * |det|' if ok else
+           'TransformPoints.weights multiplies by the signed determinant: reflected children (central child of a triangle) get negative weights and the weights no longer sum to the volume', statement='abs-det')
     # R09.3
     S = model.cls('sample:Sample')
     need = ['getindex', 'get_evaluable_indices', 'get_evaluable_weights', 'get_lower_args']
